@@ -30,16 +30,210 @@ Section ArrInd.
     end.
 End ArrInd.
 
-(* ---------------- slices ---------------- *)
+(* ---------------- the nested loops of read, as standalone functions ---------------- *)
+Fixpoint struct_go (rd : Arr -> Outcome RVal) (fs : list (Meta * Arr)) : Outcome (list (RVal * RVal)) :=
+  match fs with
+  | [] => Ok []
+  | (m, c) :: r => do x <- rd c ;; do rest <- struct_go rd r ;; Ok ((RStr (m_name m), x) :: rest)
+  end.
+
+Fixpoint union_pick (rd : Arr -> Outcome RVal) (fs : list (Z * Meta * Arr)) (n : nat) : Outcome RVal :=
+  match fs with
+  | [] => Err
+  | (_, m, c) :: r =>
+    match n with
+    | O => if is_null_arr c then Ok (REnum (RStr (m_name m)) RUnit)
+           else do x <- rd c ;; Ok (REnum (RStr (m_name m)) x)
+    | S n' => union_pick rd r n'
+    end
+  end.
+
+Lemma read_struct len v fs idx :
+  read (AStruct len v fs) idx =
+  if Nat.leb len idx then Err
+  else do ok <- valid_at v idx ;;
+       if negb ok then Ok RNone
+       else do kvs <- struct_go (fun c => read c idx) fs ;; Ok (RMap kvs).
+Proof.
+  cbn [read]. destruct (Nat.leb len idx); [reflexivity|].
+  destruct (valid_at v idx) as [ok| |p]; cbn [bind]; try reflexivity.
+  destruct ok; cbn [negb]; [|reflexivity].
+  match goal with |- bind ?x _ = bind ?y _ => assert (E : x = y); [|rewrite E; reflexivity] end.
+  induction fs as [|[m c] r IH]; [reflexivity|]. cbn [struct_go]. rewrite <- IH. reflexivity.
+Qed.
+
+Lemma read_union types offs fs idx :
+  read (AUnion types offs fs) idx =
+  match nth_error types idx, nth_error offs idx with
+  | Some t, Some o =>
+    do o' <- to_usize o ;;
+    if (t <? 0)%Z then Err
+    else union_pick (fun c => at_z (read c) (arr_len c) o') fs (Z.to_nat t)
+  | _, _ => Err
+  end.
+Proof.
+  cbn [read]. destruct (nth_error types idx) as [t|]; [|reflexivity].
+  destruct (nth_error offs idx) as [o|]; [|reflexivity].
+  destruct (to_usize o) as [o'| |p]; cbn [bind]; try reflexivity.
+  destruct (t <? 0)%Z; [reflexivity|]. generalize (Z.to_nat t) as n.
+  induction fs as [|[[t' m] c] r IH]; intros n; [reflexivity|]. cbn [union_pick].
+  destruct n as [|n]; [reflexivity|]. apply IH.
+Qed.
+
+(* ---------------- no panic, for every view whatsoever (C17) ---------------- *)
+Definition NP {A} (o : Outcome A) : Prop := forall p, o <> Panic p.
+
+Lemma NP_ok {A} (a : A) : NP (Ok a). Proof. intros p; discriminate. Qed.
+Lemma NP_err {A} : NP (@Err A). Proof. intros p; discriminate. Qed.
+Lemma NP_bind {A B} (o : Outcome A) (f : A -> Outcome B) : NP o -> (forall a, NP (f a)) -> NP (bind o f).
+Proof. intros H1 H2 p. apply bind_not_panic; [exact H1|]. intros a q. apply H2. Qed.
+Lemma NP_of_option {A} (o : option A) : NP (of_option o). Proof. destruct o; [apply NP_ok|apply NP_err]. Qed.
+Lemma NP_omap {A B} (f : A -> B) o : NP o -> NP (omap f o).
+Proof. destruct o as [a| |q]; cbn; intros H p; try discriminate. exfalso. exact (H q eq_refl). Qed.
+Lemma NP_if {A} (c : bool) (x y : Outcome A) : NP x -> NP y -> NP (if c then x else y).
+Proof. destruct c; auto. Qed.
+Lemma NP_valid_at v i : NP (valid_at v i).
+Proof. destruct v as [bm|]; cbn; [apply NP_of_option|apply NP_ok]. Qed.
+Lemma NP_bit_at bm i : NP (bit_at bm i). Proof. apply NP_of_option. Qed.
+Lemma NP_to_usize z : NP (to_usize z). Proof. unfold to_usize. apply NP_if; [apply NP_err|apply NP_ok]. Qed.
+Lemma NP_offset_pair offs i : NP (offset_pair offs i).
+Proof.
+  unfold offset_pair. destruct (nth_error offs i); [|apply NP_err]. destruct (nth_error offs (S i)); [|apply NP_err].
+  apply NP_bind; [apply NP_to_usize|]. intros s. apply NP_bind; [apply NP_to_usize|]. intros e. apply NP_ok.
+Qed.
+Lemma NP_mapM {A B} (f : A -> Outcome B) l : (forall x, NP (f x)) -> NP (mapM f l).
+Proof.
+  intros H. induction l as [|x r IH]; cbn [mapM]; [apply NP_ok|].
+  apply NP_bind; [apply H|]. intros y. apply NP_bind; [exact IH|]. intros ys. apply NP_ok.
+Qed.
+Lemma NP_range_z {A} (rd : nat -> Outcome A) len s e : (forall i, NP (rd i)) -> NP (range_z rd len s e).
+Proof.
+  intros H. unfold range_z. apply NP_if; [apply NP_ok|]. apply NP_if.
+  - apply NP_if; [apply NP_err|]. apply NP_bind; [apply NP_mapM; exact H|]. intros _. apply NP_err.
+  - apply NP_mapM; exact H.
+Qed.
+Lemma NP_at_z {A} (rd : nat -> Outcome A) len z : (forall i, NP (rd i)) -> NP (at_z rd len z).
+Proof. intros H. unfold at_z. apply NP_if; [apply NP_err|]. apply NP_if; [apply NP_err|apply H]. Qed.
+Lemma NP_text_or_bytes t x : NP (text_or_bytes t x).
+Proof. unfold text_or_bytes. apply NP_if; [apply NP_if; [apply NP_ok|apply NP_err]|apply NP_ok]. Qed.
+Lemma NP_bytes_get v offs data i : NP (bytes_get v offs data i).
+Proof.
+  unfold bytes_get. apply NP_if; [apply NP_err|]. apply NP_bind; [apply NP_valid_at|]. intros ok.
+  apply NP_if; [apply NP_ok|]. apply NP_bind; [apply NP_offset_pair|]. intros [s e].
+  apply NP_if; [apply NP_ok|apply NP_err].
+Qed.
+
+Theorem read_no_panic : forall a idx, NP (read a idx).
+Proof.
+  intros a. induction a as [n|n v x|k v x|k v offs d|k v d bs|n v d|k v offs m e IHe|len n v m e IHe|len v fs IH
+                            |v offs en km vm ks xs IHk IHx|ks xs IHk IHx|t offs fs IH] using Arr_ind'; intros idx.
+  - cbn [read]. apply NP_if; [apply NP_err|apply NP_ok].
+  - cbn [read]. apply NP_if; [apply NP_err|]. apply NP_bind; [apply NP_valid_at|]. intros ok.
+    apply NP_if; [|apply NP_ok]. apply NP_bind; [apply NP_bit_at|]. intros y. apply NP_ok.
+  - cbn [read]. destruct (nth_error x idx); [|apply NP_err]. apply NP_bind; [apply NP_valid_at|]. intros ok.
+    apply NP_if; [apply NP_of_option|apply NP_ok].
+  - cbn [read]. apply NP_bind; [apply NP_bytes_get|]. intros [y|]; [apply NP_text_or_bytes|apply NP_ok].
+  - cbn [read]. destruct (nth_error d idx); [|apply NP_err]. apply NP_bind; [apply NP_valid_at|]. intros ok.
+    apply NP_if; [apply NP_ok|]. destruct (view_bytes bs n); [apply NP_text_or_bytes|apply NP_err].
+  - cbn [read]. apply NP_if; [apply NP_err|]. apply NP_bind; [apply NP_valid_at|]. intros ok.
+    apply NP_if; apply NP_ok.
+  - cbn [read]. apply NP_if; [apply NP_err|]. apply NP_bind; [apply NP_valid_at|]. intros ok.
+    apply NP_if; [apply NP_ok|]. apply NP_bind; [apply NP_offset_pair|]. intros [s e'].
+    apply NP_bind; [apply NP_range_z; exact IHe|]. intros items. apply NP_ok.
+  - cbn [read]. apply NP_if; [apply NP_err|]. apply NP_bind; [apply NP_valid_at|]. intros ok.
+    apply NP_if; [apply NP_ok|]. apply NP_bind; [apply NP_range_z; exact IHe|]. intros items. apply NP_ok.
+  - rewrite read_struct. apply NP_if; [apply NP_err|]. apply NP_bind; [apply NP_valid_at|]. intros ok.
+    apply NP_if; [apply NP_ok|]. apply NP_bind; [|intros kvs; apply NP_ok].
+    induction IH as [|[m c] r Hc Hr IHr]; cbn [struct_go]; [apply NP_ok|].
+    apply NP_bind; [apply Hc|]. intros y. apply NP_bind; [exact IHr|]. intros rest. apply NP_ok.
+  - cbn [read]. apply NP_if; [apply NP_err|]. apply NP_bind; [apply NP_valid_at|]. intros ok.
+    apply NP_if; [apply NP_ok|]. apply NP_bind; [apply NP_offset_pair|]. intros [s e'].
+    apply NP_bind; [|intros kvs; apply NP_ok]. apply NP_range_z. intros i.
+    apply NP_bind; [apply IHk|]. intros k'. apply NP_bind; [apply IHx|]. intros x'. apply NP_ok.
+  - cbn [read]. destruct ks; try apply NP_err. destruct k; try apply NP_err. destruct xs; try apply NP_err.
+    destruct validity0; try apply NP_err.
+    destruct (nth_error values idx); [|apply NP_err]. apply NP_bind; [apply NP_valid_at|]. intros ok.
+    apply NP_if; [apply NP_ok|]. apply NP_if; [apply NP_err|].
+    apply NP_bind; [apply NP_at_z; intros i; apply NP_bytes_get|]. intros [y|]; [apply NP_text_or_bytes|apply NP_err].
+  - rewrite read_union. destruct (nth_error t idx); [|apply NP_err]. destruct (nth_error offs idx); [|apply NP_err].
+    apply NP_bind; [apply NP_to_usize|]. intros o'. apply NP_if; [apply NP_err|].
+    generalize (Z.to_nat z) as n. induction IH as [|[[t' m] c] r Hc Hr IHr]; intros n; cbn [union_pick]; [apply NP_err|].
+    destruct n as [|n]; [|apply IHr]. apply NP_if; [apply NP_ok|].
+    apply NP_bind; [apply NP_at_z; exact Hc|]. intros y. apply NP_ok.
+Qed.
+
+Theorem read_top_no_panic : forall a idx, NP (read_top a idx).
+Proof.
+  intros a idx. unfold read_top. apply NP_if; [|apply NP_err]. apply NP_if; [|apply NP_ok].
+  apply NP_omap. apply read_no_panic.
+Qed.
+
+(* ---------------- reads at or beyond the length are errors; the clamps are faithful ---------------- *)
+Theorem read_oob : forall a idx, arr_len a <= idx -> read a idx = Err.
+Proof.
+  intros a idx H. destruct a; cbn [arr_len] in H.
+  - cbn [read]. destruct (Nat.leb_spec len idx); [reflexivity|lia].
+  - cbn [read]. destruct (Nat.leb_spec len idx); [reflexivity|lia].
+  - cbn [read]. destruct (nth_error values idx) eqn:E; [|reflexivity].
+    assert (idx < length values) by (apply nth_error_Some; congruence). lia.
+  - cbn [read]. unfold bytes_get. destruct (Nat.leb_spec (length offsets) (S idx)); [reflexivity|lia].
+  - cbn [read]. destruct (nth_error descs idx) eqn:E; [|reflexivity]. assert (idx < length descs) by (apply nth_error_Some; congruence). lia.
+  - cbn [read arr_len]. destruct (Nat.leb_spec (if (n <=? 0)%Z then 0 else length data / Z.to_nat n) idx); [reflexivity|lia].
+  - cbn [read]. destruct (Nat.leb_spec (length offsets) (S idx)); [reflexivity|lia].
+  - cbn [read]. destruct (Nat.leb_spec len idx); [reflexivity|lia].
+  - rewrite read_struct. destruct (Nat.leb_spec len idx); [reflexivity|lia].
+  - cbn [read]. destruct (Nat.leb_spec (length offsets) (S idx)); [reflexivity|lia].
+  - cbn [read]. destruct a1; try reflexivity. destruct k; try reflexivity. destruct a2; try reflexivity.
+    destruct validity0; try reflexivity. cbn [arr_len] in H.
+    destruct (nth_error values idx) eqn:E; [|reflexivity]. assert (idx < length values) by (apply nth_error_Some; congruence). lia.
+  - rewrite read_union. destruct (nth_error types idx) eqn:E; [|reflexivity]. assert (idx < length types) by (apply nth_error_Some; congruence). lia.
+Qed.
+
+(* the loops as the Rust code runs them, without the clamp *)
+Definition naive_range {A} (rd : nat -> Outcome A) (s e : Z) : Outcome (list A) :=
+  if (e <=? s)%Z then Ok [] else mapM rd (seq (Z.to_nat s) (Z.to_nat (e - s))).
+
+Lemma mapM_app_err {A B} (f : A -> Outcome B) l1 x l2 :
+  (forall y, NP (f y)) -> f x = Err -> mapM f (l1 ++ x :: l2) = do _ <- mapM f l1 ;; Err.
+Proof.
+  intros Hnp Hx. induction l1 as [|y r IH]; cbn [app mapM bind].
+  - rewrite Hx. reflexivity.
+  - destruct (f y) as [y'| |p] eqn:Ey; cbn [bind]; try reflexivity.
+    rewrite IH. destruct (mapM f r) as [ys| |p]; cbn [bind]; reflexivity.
+Qed.
+
+Theorem range_z_faithful {A} (rd : nat -> Outcome A) len s e :
+  (forall i, len <= i -> rd i = Err) -> (forall i, NP (rd i)) -> (0 <= s)%Z ->
+  range_z rd len s e = naive_range rd s e.
+Proof.
+  intros Hoob Hnp Hs. unfold range_z, naive_range.
+  destruct (Z.leb_spec e s); [reflexivity|].
+  destruct (Z.ltb_spec (Z.of_nat len) e); [|reflexivity].
+  destruct (Z.leb_spec (Z.of_nat len) s).
+  - destruct (Z.to_nat (e - s)) as [|n] eqn:En; [lia|]. cbn [seq mapM]. rewrite Hoob by lia. reflexivity.
+  - replace (Z.to_nat (e - s)) with ((len - Z.to_nat s) + S (Z.to_nat (e - Z.of_nat len) - 1)) by lia.
+    rewrite seq_app. cbn [seq]. rewrite mapM_app_err; [reflexivity|exact Hnp|]. apply Hoob. lia.
+Qed.
+
+Theorem at_z_faithful {A} (rd : nat -> Outcome A) len z :
+  (forall i, len <= i -> rd i = Err) -> (0 <= z)%Z -> at_z rd len z = rd (Z.to_nat z).
+Proof.
+  intros Hoob Hz. unfold at_z. destruct (Z.ltb_spec z 0); [lia|].
+  destruct (Z.leb_spec (Z.of_nat len) z); [|reflexivity]. rewrite Hoob by lia. reflexivity.
+Qed.
+
+(* the clamped child accesses of read are exactly the unclamped ones *)
+Corollary read_child_range e s t : (0 <= s)%Z -> range_z (read e) (arr_len e) s t = naive_range (read e) s t.
+Proof. intros H. apply range_z_faithful; [apply read_oob|apply read_no_panic|exact H]. Qed.
+Corollary read_child_at c z : (0 <= z)%Z -> at_z (read c) (arr_len c) z = read c (Z.to_nat z).
+Proof. intros H. apply at_z_faithful; [apply read_oob|exact H]. Qed.
+
+(* ---------------- slices (C12) ---------------- *)
 Lemma bit_at_slice bm o i : bit_at (slice_bm bm o) i = bit_at bm (o + i).
 Proof. unfold bit_at, slice_bm. cbn [bm_off bm_data]. f_equal. f_equal. lia. Qed.
 
 Lemma valid_at_slice v o i : valid_at (slice_validity v o) i = valid_at v (o + i).
 Proof. destruct v as [bm|]; cbn [slice_validity option_map valid_at]; [apply bit_at_slice|reflexivity]. Qed.
-
-Lemma nth_error_window {A} (l : list A) o n i : i < n -> nth_error (firstn n (skipn o l)) i = nth_error l (o + i).
-Proof.
-  intros Hi. rewrite nth_error_firstn by exact Hi. Abort.
 
 Lemma nth_error_firstn_lt {A} (l : list A) n i : i < n -> nth_error (firstn n l) i = nth_error l i.
 Proof.
@@ -53,42 +247,376 @@ Proof.
   cbn [skipn plus nth_error]. apply IH.
 Qed.
 
-Lemma nth_error_window {A} (l : list A) o n i : i < n -> nth_error (firstn n (skipn o l)) i = nth_error l (o + i).
-Proof. intros H. rewrite nth_error_firstn_lt by exact H. apply nth_error_skipn. Qed.
+Lemma nth_error_window {A} (l : list A) o n i : i < n -> nth_error (window l o n) i = nth_error l (o + i).
+Proof. intros H. unfold window. rewrite nth_error_firstn_lt by exact H. apply nth_error_skipn. Qed.
 
-Lemma offset_pair_window offs o l i : i < l ->
-  offset_pair (firstn (S l) (skipn o offs)) i = offset_pair offs (o + i).
+Lemma offset_pair_window offs o l i : i < l -> offset_pair (window offs o (S l)) i = offset_pair offs (o + i).
 Proof.
   intros H. unfold offset_pair. rewrite !nth_error_window by lia.
   replace (o + S i) with (S (o + i)) by lia. reflexivity.
 Qed.
 
-Lemma window_length {A} (l : list A) o n : o + n <= length l -> length (firstn n (skipn o l)) = n.
-Proof. intros H. rewrite firstn_length, skipn_length. lia. Qed.
+Lemma window_length {A} (l : list A) o n : o + n <= length l -> length (window l o n) = n.
+Proof. intros H. unfold window. rewrite firstn_length, skipn_length. lia. Qed.
+
+Lemma mapM_ext_seq {A} (f g : nat -> Outcome A) k s n :
+  (forall j, s <= j < s + n -> f j = g (k + j)) -> mapM f (seq s n) = mapM g (seq (k + s) n).
+Proof.
+  revert s; induction n as [|n IH]; intros s H; [reflexivity|]. cbn [seq mapM].
+  rewrite H by lia. replace (S (k + s)) with (k + S s) by lia. rewrite IH; [reflexivity|]. intros j Hj. apply H. lia.
+Qed.
+
+Lemma range_z_in_bounds {A} (rd : nat -> Outcome A) len s e :
+  (s <= e)%Z -> (e <= Z.of_nat len)%Z ->
+  range_z rd len s e = mapM rd (seq (Z.to_nat s) (Z.to_nat (e - s))).
+Proof.
+  intros H1 H2. unfold range_z. destruct (Z.leb_spec e s).
+  - replace (Z.to_nat (e - s)) with 0 by lia. reflexivity.
+  - destruct (Z.ltb_spec (Z.of_nat len) e); [lia|reflexivity].
+Qed.
+
+(* length consistency of fixed-size and struct containers (implied by wf_arr, see wf_lens_ok) *)
+Fixpoint lens_ok (a : Arr) : bool :=
+  match a with
+  | AFixedList len n _ _ e => (0 <=? n)%Z && Nat.leb (len * Z.to_nat n) (arr_len e) && lens_ok e
+  | AStruct len _ fs => forallb (fun mc => Nat.leb len (arr_len (snd mc)) && lens_ok (snd mc)) fs
+  | ADict k _ => lens_ok k
+  | _ => true
+  end.
+
+Lemma window_offs_len {A} (offs : list A) o l : o + l <= length offs - 1 -> length (window offs o (S l)) - 1 = l.
+Proof. intros H. unfold window. rewrite firstn_length, skipn_length. lia. Qed.
+
+Lemma div_mul_window n l : 0 < n -> l * n / n = l.
+Proof. intros H. apply Nat.div_mul. lia. Qed.
+
+Lemma arr_len_slice : forall a o l, lens_ok a = true -> o + l <= arr_len a -> arr_len (slice_arr a o l) = l.
+Proof.
+  intros a. induction a as [n|n v x|k v x|k v offs d|k v d bs|n v d|k v offs m e IHe|len n v m e IHe|len v fs IH
+                            |v offs en km vm ks xs IHk IHx|ks xs IHk IHx|t offs fs IH] using Arr_ind';
+    intros o l Hok Hol; cbn [arr_len] in Hol; cbn [slice_arr arr_len]; try reflexivity.
+  - apply window_length. exact Hol.
+  - apply window_offs_len. exact Hol.
+  - apply window_length. exact Hol.
+  - destruct (Z.leb_spec n 0); [lia|]. rewrite window_length.
+    + apply div_mul_window. lia.
+    + assert (Hd := Nat.mul_div_le (length d) (Z.to_nat n)). nia.
+  - apply window_offs_len. exact Hol.
+  - apply window_offs_len. exact Hol.
+  - cbn [lens_ok] in Hok. apply IHk; assumption.
+  - apply window_length. exact Hol.
+Qed.
+
+Lemma skipn_skipn' {A} (l : list A) x y : skipn x (skipn y l) = skipn (y + x) l.
+Proof.
+  revert l; induction y as [|y IH]; intros l; [reflexivity|]. destruct l as [|a r]; [rewrite !skipn_nil; reflexivity|].
+  cbn [skipn plus]. apply IH.
+Qed.
+
+Lemma skipn_window {A} (l : list A) o n i : skipn i (window l o n) = window l (o + i) (n - i).
+Proof.
+  unfold window. rewrite skipn_firstn_comm. rewrite skipn_skipn'. reflexivity.
+Qed.
+
+Lemma firstn_window {A} (l : list A) o n k : k <= n -> firstn k (window l o n) = firstn k (skipn o l).
+Proof. intros H. unfold window. rewrite firstn_firstn. f_equal. lia. Qed.
 
 (* Deserializing a slice equals slicing the deserialized values: row i of the window [o, o+l) reads
-   exactly as row o+i of the whole array - for every modelled kind, at every nesting level, for
-   windows that start inside a bitmap byte *)
-Theorem read_slice : forall a o l i, o + l <= arr_len a -> i < l ->
+   exactly as row o+i of the whole array - for every data type of the dispatcher, at every nesting
+   level, for windows that start inside a bitmap byte *)
+Theorem read_slice : forall a o l i, lens_ok a = true -> o + l <= arr_len a -> i < l ->
   read (slice_arr a o l) i = read a (o + i).
 Proof.
   intros a. induction a as [n|n v x|k v x|k v offs d|k v d bs|n v d|k v offs m e IHe|len n v m e IHe|len v fs IH
                             |v offs en km vm ks xs IHk IHx|ks xs IHk IHx|t offs fs IH] using Arr_ind';
-    intros o l i Hol Hi; cbn [arr_len] in Hol; cbn [slice_arr read].
-  - reflexivity.
-  - destruct (Nat.leb_spec l i); [lia|]. destruct (Nat.leb_spec n (o + i)); [lia|].
+    intros o l i Hok Hol Hi; cbn [arr_len] in Hol.
+  - cbn [slice_arr read]. destruct (Nat.leb_spec l i); [lia|]. destruct (Nat.leb_spec n (o + i)); [lia|]. reflexivity.
+  - cbn [slice_arr read]. destruct (Nat.leb_spec l i); [lia|]. destruct (Nat.leb_spec n (o + i)); [lia|].
     rewrite valid_at_slice, bit_at_slice. reflexivity.
-  - rewrite nth_error_window by exact Hi. rewrite valid_at_slice. reflexivity.
-  - rewrite window_length by lia.
+  - cbn [slice_arr read]. rewrite nth_error_window by exact Hi. rewrite valid_at_slice. reflexivity.
+  - cbn [slice_arr read]. unfold bytes_get. rewrite window_length by lia.
     destruct (Nat.leb_spec (S l) (S i)); [lia|]. destruct (Nat.leb_spec (length offs) (S (o + i))); [lia|].
     rewrite valid_at_slice, offset_pair_window by exact Hi. reflexivity.
-  - admit.
-  - admit.
-  - rewrite window_length by lia.
-    destruct (Nat.leb_spec (S l) (S i)); [lia|]. destruct (Nat.leb_spec (length offs) (S (o + i))); [lia|].
-    rewrite valid_at_slice, offset_pair_window by exact Hi. reflexivity.
-  - admit.
-  - destruct (Nat.leb_spec l i); [lia|]. destruct (Nat.leb_spec len (o + i)); [lia|].
+  - cbn [slice_arr read]. rewrite nth_error_window by exact Hi. rewrite valid_at_slice. reflexivity.
+  - cbn [slice_arr]. assert (Hlen := arr_len_slice (AFixedBin n v d) o l eq_refl Hol). cbn [slice_arr] in Hlen.
+    cbn [read]. rewrite Hlen. cbn [arr_len].
+    destruct (Nat.leb_spec l i); [lia|].
+    destruct (Nat.leb_spec (if (n <=? 0)%Z then 0 else length d / Z.to_nat n) (o + i)); [lia|].
     rewrite valid_at_slice. destruct (valid_at v (o + i)) as [ok| |p]; cbn [bind]; try reflexivity.
-    destruct ok; cbn [negb]; [|reflexivity]. f_equal.
-Abort.
+    destruct ok; cbn [negb]; [|reflexivity]. f_equal. f_equal.
+    rewrite skipn_window. rewrite firstn_window by nia. f_equal. f_equal. lia.
+  - cbn [slice_arr read]. rewrite window_length by lia.
+    destruct (Nat.leb_spec (S l) (S i)); [lia|]. destruct (Nat.leb_spec (length offs) (S (o + i))); [lia|].
+    rewrite valid_at_slice, offset_pair_window by exact Hi. reflexivity.
+  - cbn [lens_ok] in Hok. apply andb_true_iff in Hok as [Hok Hoke]. apply andb_true_iff in Hok as [Hn Hle].
+    apply Z.leb_le in Hn. apply Nat.leb_le in Hle.
+    cbn [slice_arr read]. destruct (Nat.leb_spec l i); [lia|]. destruct (Nat.leb_spec len (o + i)); [lia|].
+    rewrite valid_at_slice. destruct (valid_at v (o + i)) as [ok| |p]; cbn [bind]; try reflexivity.
+    destruct ok; cbn [negb]; [|reflexivity].
+    rewrite arr_len_slice by (try assumption; nia).
+    rewrite !range_z_in_bounds by nia.
+    replace (Z.to_nat ((Z.of_nat (o + i) + 1) * n - Z.of_nat (o + i) * n)) with (Z.to_nat n) by nia.
+    replace (Z.to_nat ((Z.of_nat i + 1) * n - Z.of_nat i * n)) with (Z.to_nat n) by nia.
+    replace (Z.to_nat (Z.of_nat (o + i) * n)) with (o * Z.to_nat n + Z.to_nat (Z.of_nat i * n)) by nia.
+    rewrite (mapM_ext_seq (read (slice_arr e (o * Z.to_nat n) (l * Z.to_nat n))) (read e) (o * Z.to_nat n)); [reflexivity|].
+    intros j Hj. apply IHe; [exact Hoke|nia|nia].
+  - cbn [lens_ok] in Hok. cbn [slice_arr]. rewrite !read_struct.
+    destruct (Nat.leb_spec l i); [lia|]. destruct (Nat.leb_spec len (o + i)); [lia|].
+    rewrite valid_at_slice. destruct (valid_at v (o + i)) as [ok| |p]; cbn [bind]; try reflexivity.
+    destruct ok; cbn [negb]; [|reflexivity].
+    match goal with |- bind ?x _ = bind ?y _ => assert (E : x = y); [|rewrite E; reflexivity] end.
+    induction IH as [|[m c] r Hc Hr IHr]; [reflexivity|]. cbn [forallb snd] in Hok.
+    apply andb_true_iff in Hok as [Hc1 Hr1]. apply andb_true_iff in Hc1 as [Hcl Hcok]. apply Nat.leb_le in Hcl.
+    cbn [snd] in Hc. cbn [map struct_go fst snd]. rewrite (Hc o l i); [|exact Hcok|lia|exact Hi]. rewrite IHr by exact Hr1. reflexivity.
+  - cbn [slice_arr read]. rewrite window_length by lia.
+    destruct (Nat.leb_spec (S l) (S i)); [lia|]. destruct (Nat.leb_spec (length offs) (S (o + i))); [lia|].
+    rewrite valid_at_slice, offset_pair_window by exact Hi. reflexivity.
+  - cbn [lens_ok] in Hok. cbn [slice_arr]. destruct ks; try reflexivity. destruct k; try reflexivity.
+    cbn [slice_arr read]. cbn [arr_len] in Hol. rewrite nth_error_window by exact Hi. rewrite valid_at_slice. reflexivity.
+  - cbn [slice_arr]. rewrite !read_union. rewrite !nth_error_window by exact Hi. reflexivity.
+Qed.
+
+(* the reader tree of a slice is accepted whenever that of the whole array is *)
+Lemma construct_slice : forall a o l, lens_ok a = true -> o + l <= arr_len a -> construct a = true ->
+  construct (slice_arr a o l) = true.
+Proof.
+  intros a. induction a as [n|n v x|k v x|k v offs d|k v d bs|n v d|k v offs m e IHe|len n v m e IHe|len v fs IH
+                            |v offs en km vm ks xs IHk IHx|ks xs IHk IHx|t offs fs IH] using Arr_ind';
+    intros o l Hok Hol Hc; cbn [arr_len] in Hol; cbn [slice_arr construct] in *; try assumption; try reflexivity.
+  - apply andb_true_iff in Hc as [Hn Hd]. apply Z.leb_le in Hn. rewrite (proj2 (Z.leb_le 0 n) Hn). cbn [andb].
+    destruct (Z.eqb_spec n 0) as [->|Hn0].
+    + cbn [Z.to_nat]. rewrite !Nat.mul_0_r. reflexivity.
+    + destruct (Z.leb_spec n 0); [lia|]. apply Nat.eqb_eq.
+      assert (Hd' := Nat.mul_div_le (length d) (Z.to_nat n)).
+      rewrite window_length by nia. apply Nat.mod_mul. lia.
+  - cbn [lens_ok] in Hok. apply andb_true_iff in Hok as [Hok Hoke]. apply andb_true_iff in Hok as [Hn Hle].
+    apply Nat.leb_le in Hle. apply andb_true_iff in Hc as [Hn' Hce]. rewrite Hn'. cbn [andb].
+    apply IHe; [exact Hoke|nia|exact Hce].
+  - cbn [lens_ok] in Hok. rewrite forallb_forall in *. intros mc' Hin. apply in_map_iff in Hin as [[m c] [<- Hin]].
+    cbn [snd fst]. rewrite Forall_forall in IH. specialize (Hok _ Hin). specialize (Hc _ Hin). cbn [snd] in *.
+    apply andb_true_iff in Hok as [Hl Hokc]. apply Nat.leb_le in Hl. apply (IH _ Hin); cbn [snd]; [exact Hokc|lia|exact Hc].
+  - cbn [lens_ok] in Hok. destruct ks; try discriminate. destruct k; try discriminate. cbn [slice_arr]. exact Hc.
+  - apply andb_true_iff in Hc as [Hc Hfs]. apply andb_true_iff in Hc as [Hlen Hcons]. apply Nat.eqb_eq in Hlen.
+    rewrite Hcons, Hfs. rewrite !window_length by lia. rewrite Nat.eqb_refl. reflexivity.
+Qed.
+
+(* C12 through the public entry point (one column): item i of the slice = item o+i of the whole
+   array, and the slice has exactly l items *)
+Theorem read_top_slice : forall a o l i, construct a = true -> lens_ok a = true -> o + l <= arr_len a -> i < l ->
+  read_top (slice_arr a o l) i = read_top a (o + i).
+Proof.
+  intros a o l i Hc Hok Hol Hi. unfold read_top. rewrite Hc, construct_slice by assumption.
+  rewrite arr_len_slice by assumption.
+  destruct (Nat.ltb_spec i l); [|lia]. destruct (Nat.ltb_spec (o + i) (arr_len a)); [|lia].
+  rewrite read_slice by assumption. reflexivity.
+Qed.
+
+Theorem read_top_slice_end : forall a o l i, construct a = true -> lens_ok a = true -> o + l <= arr_len a -> l <= i ->
+  read_top (slice_arr a o l) i = Ok None.
+Proof.
+  intros a o l i Hc Hok Hol Hi. unfold read_top. rewrite construct_slice by assumption.
+  rewrite arr_len_slice by assumption. destruct (Nat.ltb_spec i l); [lia|reflexivity].
+Qed.
+
+(* slices of slices: a window of a window is the composed window *)
+Lemma lens_ok_slice : forall a o l, lens_ok a = true -> o + l <= arr_len a -> lens_ok (slice_arr a o l) = true.
+Proof.
+  intros a. induction a as [n|n v x|k v x|k v offs d|k v d bs|n v d|k v offs m e IHe|len n v m e IHe|len v fs IH
+                            |v offs en km vm ks xs IHk IHx|ks xs IHk IHx|t offs fs IH] using Arr_ind';
+    intros o l Hok Hol; cbn [arr_len] in Hol; cbn [slice_arr lens_ok] in *; try reflexivity.
+  - apply andb_true_iff in Hok as [Hok Hoke]. apply andb_true_iff in Hok as [Hn Hle]. apply Nat.leb_le in Hle.
+    rewrite Hn. cbn [andb]. rewrite arr_len_slice by (try assumption; nia). rewrite Nat.leb_refl. cbn [andb].
+    apply IHe; [exact Hoke|nia].
+  - rewrite forallb_forall in *. intros mc' Hin. apply in_map_iff in Hin as [[m c] [<- Hin]].
+    cbn [snd fst]. rewrite Forall_forall in IH. specialize (Hok _ Hin). cbn [snd] in *.
+    apply andb_true_iff in Hok as [Hl Hokc]. apply Nat.leb_le in Hl.
+    rewrite arr_len_slice by (try assumption; lia). rewrite Nat.leb_refl. cbn [andb]. apply (IH _ Hin); cbn [snd]; [exact Hokc|lia].
+  - apply IHk; assumption.
+Qed.
+
+Theorem read_slice_of_slice : forall a o l o2 l2 i, lens_ok a = true -> o + l <= arr_len a -> o2 + l2 <= l -> i < l2 ->
+  read (slice_arr (slice_arr a o l) o2 l2) i = read a (o + o2 + i).
+Proof.
+  intros a o l o2 l2 i Hok Hol Hol2 Hi.
+  rewrite read_slice; [|apply lens_ok_slice; assumption|rewrite arr_len_slice by assumption; exact Hol2|exact Hi].
+  rewrite read_slice by (try assumption; lia). f_equal. lia.
+Qed.
+
+(* well-formed arrays satisfy the length condition of the slice theorems *)
+Lemma wf_lens_ok : forall a strict f, wf_arr strict f a = true -> lens_ok a = true.
+Proof.
+  intros a. induction a as [n|n v x|k v x|k v offs d|k v d bs|n v d|k v offs m e IHe|len n v m e IHe|len v fs IH
+                            |v offs en km vm ks xs IHk IHx|ks xs IHk IHx|t offs fs IH] using Arr_ind';
+    intros strict [fnm fd fnl] Hwf; cbn [lens_ok]; try reflexivity.
+  - destruct fd; cbn [wf_arr fdt'] in Hwf; try discriminate.
+    repeat (apply andb_true_iff in Hwf as [Hwf ?]).
+    match goal with H : (0 <=? _)%Z = true |- _ => rename H into Hn end.
+    match goal with H : len_ok _ _ _ = true |- _ => rename H into Hl end.
+    match goal with H : (_ =? _)%Z = true |- _ => apply Z.eqb_eq in H; subst end.
+    rewrite Hn. cbn [andb]. apply andb_true_iff. split.
+    + unfold len_ok in Hl. destruct strict; [apply Nat.eqb_eq in Hl; rewrite Hl; apply Nat.leb_refl|exact Hl].
+    + eapply IHe. eassumption.
+  - destruct fd; cbn [wf_arr fdt'] in Hwf; try discriminate.
+    apply andb_true_iff in Hwf as [_ Hgo]. revert fs0 Hgo.
+    induction IH as [|[m c] r Hc Hr IHr]; intros fs0 Hgo; [reflexivity|].
+    destruct fs0 as [|cf fs0]; [discriminate|].
+    repeat (apply andb_true_iff in Hgo as [Hgo ?]). cbn [forallb snd].
+    apply andb_true_iff; split; [apply andb_true_iff; split|].
+    + match goal with H : len_ok _ _ _ = true |- _ => unfold len_ok in H; destruct strict; [apply Nat.eqb_eq in H; rewrite H; apply Nat.leb_refl|exact H] end.
+    + eapply Hc. eassumption.
+    + eapply IHr. eassumption.
+  - destruct fd; cbn [wf_arr fdt'] in Hwf; try discriminate.
+    repeat (apply andb_true_iff in Hwf as [Hwf ?]). eapply IHk. eassumption.
+Qed.
+
+(* ---------------- reads return the logical content (C02), leaf kinds ---------------- *)
+Lemma bits_from_spec data : forall n start bits, bits_from data start n = Some bits ->
+  length bits = n /\ forall i, i < n -> get_bit data (start + i) = Some (nth i bits false).
+Proof.
+  induction n as [|n IH]; intros start bits H; cbn [bits_from] in H.
+  - inversion H; subst. split; [reflexivity|]. intros i Hi. lia.
+  - destruct (get_bit data start) as [b0|] eqn:E0; [|discriminate].
+    destruct (bits_from data (S start) n) as [r|] eqn:Er; [|discriminate]. inversion H; subst.
+    destruct (IH _ _ Er) as [Hl Hn]. split; [cbn; lia|]. intros [|i] Hi.
+    + rewrite Nat.add_0_r. exact E0.
+    + cbn [nth]. replace (start + S i) with (S start + i) by lia. apply Hn. lia.
+Qed.
+
+Lemma nth_error_map_combine {A} (bits : list bool) (vals : list A) (f : bool * A -> A) i x :
+  length bits = length vals -> nth_error vals i = Some x ->
+  nth_error (map f (combine bits vals)) i = Some (f (nth i bits false, x)).
+Proof.
+  revert vals i; induction bits as [|b0 r IH]; intros [|v0 vs] i Hl Hx; cbn in Hl; try lia.
+  - destruct i; discriminate.
+  - destruct i as [|i]; cbn in *; [inversion Hx; reflexivity|]. apply IH; [lia|exact Hx].
+Qed.
+
+(* validity: the slot is null exactly when the bit at (bit offset + i) is clear; the value
+   below a null slot is irrelevant *)
+Lemma apply_validity_nth v vals out i x :
+  apply_validity v vals = Some out -> nth_error vals i = Some x ->
+  exists b0, valid_at v i = Ok b0 /\ nth_error out i = Some (if b0 then x else LNull).
+Proof.
+  intros H Hx. assert (Hi : i < length vals) by (apply nth_error_Some; congruence).
+  destruct v as [bm|]; cbn [apply_validity valid_at] in *.
+  - unfold bits_of in H. destruct (bits_from (bm_data bm) (bm_off bm) (length vals)) as [bits|] eqn:Eb; [|discriminate].
+    inversion H; subst. destruct (bits_from_spec _ _ _ _ Eb) as [Hl Hn].
+    exists (nth i bits false). split.
+    + unfold bit_at. rewrite Nat.add_comm, (Hn i Hi). reflexivity.
+    + rewrite (nth_error_map_combine bits vals _ i x Hl Hx). reflexivity.
+  - inversion H; subst. exists true. split; [reflexivity|exact Hx].
+Qed.
+
+Lemma apply_validity_length v vals out : apply_validity v vals = Some out -> length out = length vals.
+Proof.
+  destruct v as [bm|]; cbn [apply_validity]; intros H.
+  - unfold bits_of in H. destruct (bits_from (bm_data bm) (bm_off bm) (length vals)) as [bits|] eqn:Eb; [|discriminate].
+    inversion H; subst. destruct (bits_from_spec _ _ _ _ Eb) as [Hl _]. rewrite map_length, combine_length. lia.
+  - inversion H; reflexivity.
+Qed.
+
+Theorem read_decode_null n nm nl lvs i lv :
+  decode (ANull n) = Some lvs -> nth_error lvs i = Some lv ->
+  read (ANull n) i = of_option (present (mkField nm DNull nl) lv).
+Proof.
+  intros H Hx. cbn [decode] in H. inversion H; subst.
+  assert (i < n) by (rewrite <- (repeat_length LNull n); apply nth_error_Some; congruence).
+  cbn [read]. destruct (Nat.leb_spec n i); [lia|]. destruct lv; reflexivity.
+Qed.
+
+Theorem read_decode_bool n v vals nm nl lvs i lv :
+  decode (ABool n v vals) = Some lvs -> nth_error lvs i = Some lv ->
+  read (ABool n v vals) i = of_option (present (mkField nm DBool nl) lv).
+Proof.
+  intros H Hx. cbn [decode] in H. destruct (bits_of vals n) as [bits|] eqn:Eb; [|discriminate].
+  unfold bits_of in Eb. destruct (bits_from_spec _ _ _ _ Eb) as [Hl Hn].
+  assert (Hi : i < n).
+  { rewrite <- Hl, <- (map_length LBool bits), <- (apply_validity_length _ _ _ H). apply nth_error_Some. congruence. }
+  assert (Hv : nth_error (map LBool bits) i = Some (LBool (nth i bits false))).
+  { rewrite nth_error_map. rewrite (nth_error_nth' bits false) by lia. reflexivity. }
+  destruct (apply_validity_nth _ _ _ _ _ H Hv) as [b0 [Hb0 Hout]].
+  rewrite Hx in Hout. injection Hout as Hlv. subst lv.
+  cbn [read]. destruct (Nat.leb_spec n i); [lia|]. rewrite Hb0. cbn [bind].
+  destruct b0; [|reflexivity]. unfold bit_at. rewrite Nat.add_comm, (Hn i Hi). reflexivity.
+Qed.
+
+Theorem read_decode_prim k v vals nm nl lvs i lv :
+  decode (APrim k v vals) = Some lvs -> nth_error lvs i = Some lv ->
+  read (APrim k v vals) i = of_option (present (mkField nm (DPrim k) nl) lv).
+Proof.
+  intros H Hx. cbn [decode] in H.
+  assert (Hi : i < length vals).
+  { rewrite <- (map_length LInt vals), <- (apply_validity_length _ _ _ H). apply nth_error_Some. congruence. }
+  destruct (nth_error vals i) as [z|] eqn:Ez; [|apply nth_error_None in Ez; lia].
+  assert (Hv : nth_error (map LInt vals) i = Some (LInt z)) by (rewrite nth_error_map, Ez; reflexivity).
+  destruct (apply_validity_nth _ _ _ _ _ H Hv) as [b0 [Hb0 Hout]].
+  rewrite Hx in Hout. injection Hout as Hlv. subst lv.
+  cbn [read]. rewrite Ez, Hb0. cbn [bind]. destruct b0; [|destruct k; reflexivity].
+  cbn [present fdt']. destruct k; try reflexivity.
+Qed.
+
+(* offsets: slot i of a bytes array is data[offs[i] .. offs[i+1]], whatever the first offset is
+   and whether or not other parts of data are referenced *)
+Fixpoint ranges_go {A} (l : list A) (prev : Z) (rest : list Z) : option (list (list A)) :=
+  match rest with
+  | [] => Some []
+  | o :: rest' =>
+    if (0 <=? prev)%Z && (prev <=? o)%Z then
+      match sub_list l (Z.to_nat prev) (Z.to_nat (o - prev)), ranges_go l o rest' with
+      | Some x, Some r => Some (x :: r) | _, _ => None end
+    else None
+  end.
+
+Lemma ranges_eq {A} (l : list A) o0 rest : ranges l (o0 :: rest) = ranges_go l o0 rest.
+Proof.
+  destruct l as [|a l]; cbn [ranges]; revert o0; induction rest as [|o1 rest IH]; intros o0; cbn [ranges_go];
+    try reflexivity; rewrite <- IH; reflexivity.
+Qed.
+
+Lemma ranges_nil {A} (l : list A) : ranges l [] = None.
+Proof. destruct l; reflexivity. Qed.
+
+Lemma ranges_nth {A} (l : list A) : forall rest o0 rs i x,
+  ranges_go l o0 rest = Some rs -> nth_error rs i = Some x ->
+  exists s e, nth_error (o0 :: rest) i = Some s /\ nth_error (o0 :: rest) (S i) = Some e /\ (0 <= s)%Z /\ (s <= e)%Z /\ (e <= Z.of_nat (length l))%Z /\ x = firstn (Z.to_nat (e - s)) (skipn (Z.to_nat s) l).
+Proof.
+  induction rest as [|o1 rest IH]; intros o0 rs i x H Hx.
+  - cbn in H. inversion H; subst. destruct i; discriminate Hx.
+  - cbn [ranges_go] in H.
+    destruct ((0 <=? o0)%Z && (o0 <=? o1)%Z) eqn:Ec; [|discriminate].
+    apply andb_true_iff in Ec as [E0 E1]. apply Z.leb_le in E0. apply Z.leb_le in E1.
+    unfold sub_list in H.
+    destruct (Nat.leb_spec (Z.to_nat o0 + Z.to_nat (o1 - o0)) (length l)) as [Hle|]; [|discriminate].
+    destruct (ranges_go l o1 rest) as [r|] eqn:Er; [|discriminate].
+    inversion H; subst. destruct i as [|i].
+    + cbn in Hx. inversion Hx; subst. exists o0, o1. repeat split; try reflexivity; try lia.
+    + cbn [nth_error] in Hx. destruct (IH o1 r i x) as [s [e [Hs [He Hr]]]]; [exact Er|exact Hx|].
+      exists s, e. split; [exact Hs|]. split; [exact He|exact Hr].
+Qed.
+
+Theorem read_decode_bytes k v offs data nm nl lvs i lv :
+  decode (ABytes k v offs data) = Some lvs -> nth_error lvs i = Some lv ->
+  (is_utf8_kind k = true -> forall x, lv = LBytes x -> utf8_valid x = true) ->
+  read (ABytes k v offs data) i = of_option (present (mkField nm (DBytes k) nl) lv).
+Proof.
+  intros H Hx Hutf. cbn [decode] in H. destruct (ranges data offs) as [rs|] eqn:Er; [|discriminate].
+  destruct offs as [|o0 rest]; [rewrite ranges_nil in Er; discriminate|].
+  assert (Hi : i < length rs).
+  { replace (length rs) with (length (map LBytes rs)) by apply map_length.
+    rewrite <- (apply_validity_length _ _ _ H). apply nth_error_Some. congruence. }
+  destruct (nth_error rs i) as [x|] eqn:Ex; [|apply nth_error_None in Ex; lia].
+  rewrite ranges_eq in Er. destruct (ranges_nth _ _ _ _ _ _ Er Ex) as [s [e [Hs [He [H0 [Hse [Hel ->]]]]]]].
+  assert (Hv : nth_error (map LBytes rs) i = Some (LBytes (firstn (Z.to_nat (e - s)) (skipn (Z.to_nat s) data))))
+    by (apply (map_nth_error LBytes); exact Ex).
+  destruct (apply_validity_nth _ _ _ _ _ H Hv) as [b0 [Hb0 Hout]].
+  rewrite Hx in Hout. injection Hout as Hlv. subst lv.
+  cbn [read]. unfold bytes_get.
+  assert (S i < length (o0 :: rest)) by (apply nth_error_Some; congruence).
+  destruct (Nat.leb_spec (length (o0 :: rest)) (S i)); [lia|]. rewrite Hb0. cbn [bind].
+  destruct b0; cbn [negb]; [|destruct k; reflexivity].
+  unfold offset_pair. rewrite Hs, He. unfold to_usize.
+  destruct (Z.ltb_spec s 0); [lia|]. destruct (Z.ltb_spec e 0); [lia|]. cbn [bind].
+  destruct (Z.leb_spec s e); [|lia]. destruct (Z.leb_spec e (Z.of_nat (length data))); [|lia]. cbn [andb bind].
+  unfold text_or_bytes. cbn [present fdt']. destruct k; cbn [is_utf8_kind is_text_dt] in *;
+    try rewrite (Hutf eq_refl _ eq_refl); reflexivity.
+Qed.
